@@ -22,7 +22,10 @@ thread_local! {
 
 const AMBIENT_VALUES: &[&str] = &["corpus/Asia/Tokyo", "Asia/Tokyo", "UTC", "Europe/Paris", ":Europe/Paris", "localtime", "/usr/share/zoneinfo/UTC", "EST5EDT", " UTC ", "Nonexistent/Zone", "<+03>-3", "", ":", "/etc/localtime", ":/etc/localtime", "posixrules", "right/UTC", "Etc/GMT+5", "CET-1CEST,M3.5.0,M10.5.0/3", "UTC0", " UTC0\n", ":Nonexistent/Zone", "Europe", "/nonexistent/abs",
     // real files of the harness's own tree: empty, not a TZif file, cut short, a directory
-    ":@CORPUS/../ambient/empty", "@CORPUS/../ambient/empty", "@CORPUS/../ambient/garbage", ":@CORPUS/../ambient/truncated", "@CORPUS/../ambient/dir", ":@CORPUS/../ambient/dir", "::@CORPUS/UTC", ":@CORPUS/UTC"];
+    ":@CORPUS/../ambient/empty", "@CORPUS/../ambient/empty", "@CORPUS/../ambient/garbage", ":@CORPUS/../ambient/truncated", "@CORPUS/../ambient/dir", ":@CORPUS/../ambient/dir", "::@CORPUS/UTC", ":@CORPUS/UTC",
+    // names that begin with "./" or "../": still names below the directories, never paths relative to the working
+    // directory (each exists relative to one of the working directories the environment actor moves between)
+    "./Asia/Tokyo", ":./Asia/Tokyo", "./corpus/Asia/Tokyo", ":./corpus/UTC", "../corpus/Asia/Tokyo", ":../corpus/UTC", "./usr/share/zoneinfo/UTC", "../usr/share/zoneinfo/UTC", "./etc/localtime"];
 
 /// the `k`-th ambient TZ value ("@CORPUS" = the vendored tree)
 fn ambient_value(args: &[i64]) -> String {
@@ -524,6 +527,21 @@ pub fn eval_query(op: &Op, zh: Option<&ZH>, toh: Option<&ZH>, buf: Option<&mut V
             let z = need!(zh);
             let r = run!(false, DateTime::find(f.y, f.mo, f.d, f.h, f.mi, f.s, f.ns, z));
             harness(|| render_find(out, &r));
+            if let Ok(list) = &r {
+                // every date-time handed back lies in the supported range (its own timestamp is accepted by
+                // from_timespec): a search at the year limits whose instant falls outside must be refused (C07)
+                harness(|| {
+                    for k in list.clone().into_inner() {
+                        // (only the instants that show the requested local time: a skipped entry carries the instant of the
+                        // zone's own transition, which a zone may legitimately place outside the range)
+                        if let FoundDateTimeKind::Normal(d) = k {
+                            if UtcDateTime::from_timespec(d.unix_time(), d.nanoseconds()).is_err() {
+                                q.findings.push(("C07.error_value".into(), "find-out-of-range".into(), format!("find returned a date-time whose Unix time {} is outside the supported range", d.unix_time())));
+                            }
+                        }
+                    }
+                });
+            }
             if let (Some(m), Ok(list)) = (&q.meas, &r) {
                 // allocation bound for the allocating search (C07)
                 let k = list.clone().into_inner().len();
@@ -1361,7 +1379,12 @@ pub fn run_op<'c>(ctx: &'c Ctx<'c>, me: usize, st: &mut ActorState<'c>, opi: usi
         Op::Construct { kind, args } => {
             let (r, _m) = measured(false, || crate::construct::run(kind, args));
             match r {
-                Ok(s) => out.push_str(&s),
+                Ok(s) => {
+                    if let Some(i) = s.find("C07VALUE[") {
+                        harness(|| push_violation(armed, "C07.error_value", "out-of-range-accepted", format!("constructor workload {kind} {args:?}: {}", &s[i..])));
+                    }
+                    out.push_str(&s)
+                }
                 Err(p) => {
                     let _ = write!(out, "PANIC({p})");
                     panicked = Some(p);
